@@ -13,9 +13,9 @@ PROP = "C12"
 FILES = ["src/osyris/io/loader.py", "src/osyris/io/utils.py", "src/osyris/io/amr.py"]
 FUNCTIONS = B.FUNCTIONS + ["osyris.io.utils.find_max_amr_level", "osyris.io.amr.AmrReader.read_variables (leaf rule with lmax)",
                            "osyris.io.reader.Reader.make_conditions"]
-ASSUMPTIONS = B.ASSUMPTIONS + ["level predicates are the enumerated forms l<=k, l<k, a<l<b, l==k, l>=k (Python callables applied by osyris to "
+ASSUMPTIONS = B.ASSUMPTIONS + ["level predicates are the enumerated forms l<=k, l<k, a<l<b, l==k, l>=k, l!=k, l==a or l==b (Python callables applied by osyris to "
                                "the level array); a value threshold combined with them has a symbolic bound"]
-BOUNDS = {"quick": {"outputs": "1-3 D, 1-2 CPUs, trees refined down to level 3 (one branch), levelmax 3", "predicates": "5 forms x k in 1..3",
+BOUNDS = {"quick": {"outputs": "1-3 D, 1-2 CPUs, trees refined down to level 3 (one branch), levelmax 3", "predicates": "7 forms (incl. gaps) x k in 1..3",
                     "combined": "level predicate AND density > symbolic threshold", "symbolic": "as C01"},
           "thorough": {"as": "quick with levelmax 4 and nboundary 1"}}
 FLOOR = {"quick": 2000, "thorough": 6000}
@@ -23,18 +23,20 @@ SHADOW_EVERY = 2
 LIMITS = {"quick": {"max_paths": 400, "budget_s": 300}, "thorough": {"max_paths": 4000, "budget_s": 1800}}
 
 PREDS = {"le": lambda k: (lambda l: l <= k), "lt": lambda k: (lambda l: l < k), "eq": lambda k: (lambda l: l == k),
-         "ge": lambda k: (lambda l: l >= k)}
+         "ge": lambda k: (lambda l: l >= k), "ne": lambda k: (lambda l: l != k)}
 
 
 def pred_py(form, k, k2=None):
     if form == "between":
         return lambda l: (l > k) & (l < k2)
+    if form == "either":
+        return lambda l: (l == k) | (l == k2)
     return PREDS[form](k)
 
 
 def pred_ok(form, k, k2=None):
     return {"le": lambda l: l <= k, "lt": lambda l: l < k, "eq": lambda l: l == k, "ge": lambda l: l >= k,
-            "between": lambda l: k < l < k2}[form]
+            "between": lambda l: k < l < k2, "ne": lambda l: l != k, "either": lambda l: l in (k, k2)}[form]
 
 
 def configs(tier):
@@ -49,6 +51,10 @@ def configs(tier):
                     if form == "lt" and k == 1:
                         continue            # accepts no level at all
                     out.append(dict(base, form=form, k=k, k2=None, thr=False, load="all:zero"))
+            # predicates with gaps: the tree is still truncated at the highest accepted level
+            for k in range(1, Lmax):
+                out.append(dict(base, form="ne", k=k, k2=None, thr=False, load="all:zero"))
+            out.append(dict(base, form="either", k=1, k2=Lmax, thr=False, load="all:zero"))
             out.append(dict(base, form="between", k=0, k2=3, thr=False, load="all:zero"))
             out.append(dict(base, form="between", k=1, k2=Lmax + 1, thr=False, load="all:zero"))
             if ndim <= 2:
